@@ -143,6 +143,11 @@ func c06Case(c *hx.Ctx, r *hx.RNG, idx int64) {
 	}
 	thr := fmt.Sprintf("thresholds(k=%d,bs=%d,ks=%d) poison=%v", kt, bs, ks, poisoned)
 	kind := r.Intn(100)
+	hugeDiv := idx%9000 == 11 // a few divisions per run with a divisor of more than 6 200 words (118 000 digits): the
+	// recursion is seven levels deep there, one more than anything below
+	if hugeDiv {
+		kind = 60
+	}
 	switch {
 	case kind < 30: // mul
 		m, n := natLen(r, c.Tier), natLen(r, c.Tier)
@@ -198,6 +203,13 @@ func c06Case(c *hx.Ctx, r *hx.RNG, idx int64) {
 		}
 	case kind < 85: // div
 		u, v, cls := genDivision(r, c.Tier)
+		if hugeDiv {
+			n := r.Range(6211, 6300)
+			if c.Tier == "thorough" && r.Bool() {
+				n = r.Range(12419, 12700)
+			}
+			v, u, cls = genWords(r, n), genWords(r, n+r.Range(n/2, n)), "huge-divisor"
+		}
 		c.Note(fmt.Sprintf("div %d / %d words %s %s", len(u), len(v), cls, thr))
 		ub, vb := wordsToBig(u), wordsToBig(v)
 		ucopy := append([]decimal.Word(nil), u...)
